@@ -43,7 +43,8 @@ func LinearAttempt(ctx context.Context, rate time.Duration, count int) <-chan ti
 		close(c)
 		return c
 	}
-	c <- time.Now()
+	last := time.Now()
+	c <- last
 	count--
 	if count <= 0 {
 		close(c)
@@ -70,8 +71,13 @@ func LinearAttempt(ctx context.Context, rate time.Duration, count int) <-chan ti
 				return
 			}
 			verifPoint("attempt.recheck.ok", c, i)
+			if t.Before(last) {
+				// the runtime may stamp an overdue tick earlier than one it delivered before (sub-microsecond rates)
+				t = last
+			}
 			select {
 			case c <- t:
+				last = t
 				i++
 				verifPoint("attempt.sent", c, i)
 			default:
